@@ -424,12 +424,15 @@ int lha_ext_header_decode(LHAFileHeader *header,
 
 	htype = ext_header_for_num(num);
 
+	// Headers of unknown type, and headers too short to be valid,
+	// are ignored; that is not a failure.
+
 	if (htype == NULL) {
-		return 0;
+		return 1;
 	}
 
 	if (data_len < htype->min_len) {
-		return 0;
+		return 1;
 	}
 
 	return htype->decoder(header, data, data_len);
